@@ -127,13 +127,16 @@ def run_check(prop, tier, seed):
     spec = CHECKS[prop]
     cov, viols, assumptions, rules = {}, [], [], []
     for eng in spec["engines"]:
+        kw = {}
+        if isinstance(eng, tuple):
+            eng, kw = eng
         if eng == "E1":
             c, v = e1_part(prop, tier, seed)
             assumptions += E1_ASSUMPTIONS
             rules.append(RULES["E1"])
         elif eng == "E3":
             import e3
-            c, v = e3.part(prop, tier, seed)
+            c, v = e3.part(prop, tier, seed, **kw)
             assumptions += e3.ASSUMPTIONS
             rules.append(e3.RULE)
         elif eng == "E4":
@@ -155,17 +158,19 @@ def run_check(prop, tier, seed):
 
 CHECKS = {
     "C01": {"engines": ["E1"]},
-    "C02": {"engines": ["E1"]},
-    "C03": {"engines": ["E1"]},
-    "C04": {"engines": ["E1"]},
-    "C05": {"engines": ["E1"]},
-    "C06": {"engines": ["E1"]},
+    "C02": {"engines": ["E1", "E3"]},
+    "C03": {"engines": ["E3", "E1"]},
+    "C04": {"engines": ["E1", "E3"]},
+    "C05": {"engines": ["E3", "E1"]},
+    "C06": {"engines": ["E3", "E1"]},
     "C07": {"engines": ["E1"]},
-    "C08": {"engines": ["E1"]},
+    "C08": {"engines": ["E3", "E1"]},
     "C09": {"engines": ["E1"]},
-    "C10": {"engines": ["E1"]},
-    "C11": {"engines": ["E1"]},
-    "C12": {"engines": ["E1"]},
-    "C13": {"engines": ["E1"]},
+    "C10": {"engines": ["E3", "E1"]},
+    "C11": {"engines": ["E3", "E1"]},
+    "C12": {"engines": ["E1", "E3"]},
+    "C13": {"engines": ["E3", "E1"]},
+    "C15": {"engines": ["E3"]},
+    "C17": {"engines": [("E3", {"profiles": ("pdbg", "prel"), "diff": True})], "level": "exploration"},
     "C18": {"engines": ["E1"]},
 }
